@@ -513,7 +513,10 @@ class RawFileSystem(FileSystem[str]):
     def _resolve_path(self, path: str) -> str:
         """Get the absolute path."""
         abs_path = os.path.abspath(os.path.join(self.path, path))
-        if self.constrain_path and not abs_path.startswith(self.path):
+        # Compare whole path components - "/root_evil" also starts with "/root".
+        if self.constrain_path and abs_path != self.path and not abs_path.startswith(
+            self.path.rstrip(os.sep) + os.sep
+        ):
             raise RootEscapeError(self.path, path)
         return abs_path
 
